@@ -239,6 +239,7 @@ class C16(vlib.Spec):
     lean_modules = ["Banyan.Props.C16", "Banyan.Tie.C16"]
     theorems = ["Banyan.C16." + t for t in [
         "shard_in_range", "shard_error_iff", "traceShard_in_range", "applyLocators_in_range",
+        "specLocator_eq_schemaLocator",
         "selector_canonical", "canonical_unique", "selector_canonical_fn", "order_independent",
         "pick_order_independent", "pick_total_canon", "pick_total", "pick_unknown",
         "replicas_disjoint_of_nodup", "nodes_exact", "replicas_disjoint", "locateAll_distinct", "locateAll_total",
@@ -252,7 +253,7 @@ class C16(vlib.Spec):
     trusted_base = [
         "Lean 4.33.0 kernel",
         "correspondence check: Go driver hooks/banyand/internal/verifdrv/c16 (+ export hook hooks/banyand/liaison/grpc/zz_verif_c16.go) "
-        "vs lean_exe drv_c16, byte-exact on every Pick/LocateAll/String()/ShardID/Locate output",
+        "vs lean_exe drv_c16, byte-exact on every Pick/LocateAll/String()/ShardID/Locate/navigate output",
         "fact extractor tools/extract.d/C16.py (ShardID guard, TraceShardID zero case, copies = replicas+1, selectNode and sortEntries shapes)",
         "Go slices.SortFunc / sort.StringSlice.Sort / sort.Search (modelled by their specification resp. their source), sync.RWMutex",
         "github.com/cespare/xxhash/v2 (an opaque parameter of every theorem; the executable Lean copy is only compared)",
@@ -269,7 +270,9 @@ class C16(vlib.Spec):
     rule = ("sel: <=5 groups x <=6 shards x <=3 replicas x <=6 nodes; all distinct permutations of event multisets of size 2..6 "
             "(7 in thorough), random histories of 8..40 events with churn, repeated adds, removes of absent nodes, shard-count "
             "updates, deletes, OnInit listings, ignored events; each compared on one line with fresh histories reaching the same "
-            "topology; shard/loc: random and structured keys, shard counts 0,1,2,.. 2^32-1. non-trivial = line with >=2 different "
+            "topology; shard/loc: random and structured keys, shard counts 0,1,2,.. 2^32-1; spec: stream/measure writes through the liaison with a "
+            "client-supplied tag layout (full, re-ordered, entity tags omitted, family omitted, unknown tags/families, tag under the "
+            "wrong family, empty) next to the spec-less write of the same series. non-trivial = line with >=2 different "
             "histories of one topology that has a group and a node, or a shard/loc line with shardNum >= 2")
 
     def __init__(self):
@@ -350,6 +353,82 @@ class C16(vlib.Spec):
         self.kind_of[line.strip()] = "loc/entity" if k == "-" else "loc/sharding-key"
         out.append(line.strip())
 
+    def gen_spec(self, rng, out):
+        """one logical series written (a) with a client-supplied spec, laid out like the spec and (b) without a spec, laid out
+        like the schema with every entity tag the spec does not carry (under its schema family) set to null"""
+        kind = rng.choice("sm")
+        n = rng.choice([0, 1, 2, 3, 5, 16, 16, 64, 2**32 - 1, rng.randint(1, 40)])
+        name = rng.choice(["log", "cpm", "s", "service_traffic"])
+        fams = rng.sample(["fa", "fb", "fc"], rng.randint(1, 3))
+        ntags = rng.randint(max(2, len(fams)), 6)
+        tags = ["t%d" % i for i in range(ntags)]
+        rng.shuffle(tags)
+        schema = {f: [] for f in fams}
+        for i, t in enumerate(tags):
+            schema[fams[i] if i < len(fams) and rng.random() < 0.7 else rng.choice(fams)].append(t)
+        fam_of = {t: f for f in fams for t in schema[f]}
+        entity = rng.sample(tags, rng.randint(1, min(3, ntags)))
+        sk = rng.sample(tags, rng.randint(1, 2)) if kind == "m" and rng.random() < 0.5 else None
+        val = {}
+        for t in tags:
+            k = rng.random()
+            if k < 0.1:
+                val[t] = "N"
+            elif k < 0.6:
+                val[t] = "S" + (bytes(rng.choice(b"abcxyz01|") for _ in range(rng.randint(0, 8))).hex() or "-")
+            elif k < 0.7:
+                val[t] = "B" + bytes(rng.randrange(256) for _ in range(rng.randint(1, 6))).hex()
+            else:
+                val[t] = "I" + str(rng.choice([0, 1, -1, 2**63 - 1, -2**63, rng.randint(-1000, 1000)]))
+        style = rng.choice(["none", "full", "reorder", "partial", "partial", "partial", "nofamily", "extra", "wrongfamily", "empty"])
+        if style == "none":
+            spec = None
+        elif style == "empty":
+            spec = []
+        else:
+            spec = [[f, list(schema[f])] for f in fams]
+            if style != "full":
+                rng.shuffle(spec)
+                for fs in spec:
+                    rng.shuffle(fs[1])
+            if style == "partial":
+                # drop tags (entity tags preferably) but keep their family; make a non-entity tag the first listed one
+                for fs in spec:
+                    drop = [t for t in fs[1] if (t in entity or (sk and t in sk)) and rng.random() < 0.6] or \
+                           [t for t in fs[1] if rng.random() < 0.3]
+                    fs[1] = [t for t in fs[1] if t not in drop]
+                    fs[1].sort(key=lambda t: (t in entity, rng.random()))
+            if style == "nofamily" and len(spec) > 1:
+                del spec[rng.randrange(len(spec))]
+            if style == "extra":
+                for fs in spec:
+                    if rng.random() < 0.6:
+                        fs[1].insert(rng.randint(0, len(fs[1])), "u" + fs[0])
+                spec.insert(rng.randint(0, len(spec)), ["fz", rng.sample(tags, rng.randint(0, 2))])
+            if style == "wrongfamily" and len(spec) > 1:
+                i, j = rng.sample(range(len(spec)), 2)
+                if spec[i][1]:
+                    spec[j][1].insert(rng.randint(0, len(spec[j][1])), spec[i][1].pop(rng.randrange(len(spec[i][1]))))
+        if spec is None:
+            eff = dict(val)
+            specwrite = [[val[t] for t in schema[f]] for f in fams]
+        else:
+            carried = {t for f, ts in spec for t in ts if fam_of.get(t) == f}
+            eff = {t: (val[t] if t in carried else "N") for t in tags}
+            specwrite = [[val.get(t, "S66696c6c") for t in ts] for f, ts in spec]
+        refwrite = [[eff[t] for t in schema[f]] for f in fams]
+
+        def fam_s(fl):
+            return "/".join("%s:%s" % (f, ",".join(ts)) for f, ts in fl)
+
+        def write_s(w):
+            return "/".join(",".join(x) if x else "." for x in w) if w else "."
+        line = "spec %s %d %s %s %s %s %s %s %s" % (
+            kind, n, name, fam_s([[f, schema[f]] for f in fams]), ",".join(entity), ",".join(sk) if sk else "-",
+            "-" if spec is None else (fam_s(spec) if spec else "."), write_s(specwrite), write_s(refwrite))
+        self.kind_of[line] = "spec/" + style
+        out.append(line)
+
     def cases(self, rng, n):
         out = []
         thorough = n > 20000
@@ -364,10 +443,12 @@ class C16(vlib.Spec):
         while len(out) - m < budget["dup"]:
             self.gen_dup(rng, out)
         rest = max(0, n - len(out))
-        for _ in range(rest // 2):
+        for _ in range(rest // 4):
             self.gen_shard(rng, out)
-        for _ in range(rest - rest // 2):
+        for _ in range(rest // 4):
             self.gen_loc(rng, out)
+        for _ in range(rest - 2 * (rest // 4)):
+            self.gen_spec(rng, out)
         return out
 
     def kind(self, line):
@@ -395,6 +476,28 @@ class C16(vlib.Spec):
                 return ("violation", "TraceShardID out of range [0,%d): %s" % (n, o[2]))
             if o[1] != o[2]:
                 return ("violation", "ShardID and TraceShardID route the same key differently: %s vs %s" % (o[1], o[2]))
+            return None
+        if f[0] == "spec":
+            n = int(f[2])
+            if len(o) != 4:
+                return ("violation", "malformed output " + g[:100])
+            if n == 0:
+                return None if o[0] == "ERR" and o[2] == "ERR" else ("violation", "navigate accepted shardNum 0: " + g[:100])
+            if o[0] != o[2] or o[1] != o[3]:
+                return ("violation", "one series, written with a spec and without: shard %s (entity values %s) vs shard %s (entity values %s)"
+                        % (o[0], o[1], o[2], o[3]))
+            if o[0] == "ERR" or not (0 <= int(o[0]) < n):
+                return ("violation", "navigate shard out of range [0,%d): %s" % (n, o[0]))
+            # entity values forwarded to the data node = the entity tags of the reference write, in entity order
+            schema = [fam.split(":") for fam in f[4].split("/")]
+            ref = [([] if w == "." else w.split(",")) for w in f[9].split("/")]
+            byname = {}
+            for (fn, ts), vals in zip(schema, ref):
+                for t, v in zip([t for t in ts.split(",") if t], vals):
+                    byname.setdefault(t, v)
+            want = ",".join(byname[t] for t in f[5].split(","))
+            if o[1] != want:
+                return ("violation", "entity values %s, expected %s" % (o[1], want))
             return None
         if f[0] == "loc":
             n = int(f[1])
@@ -473,6 +576,8 @@ class C16(vlib.Spec):
                         return line
                     seen.setdefault(k, ev)
             return None
+        if f[0] == "spec":
+            return line if int(f[2]) >= 2 and f[7] != "-" else None
         return line if int(f[1]) >= 2 else None
 
     # ---------------------------------------------------------------- shrinking a failing sel line
